@@ -200,4 +200,69 @@ PROPS = {
                 "Non-trivial: a handle sharing nodes with a live one is destroyed and the survivor is read afterwards. Distinct: hash of the history.",
         "assumptions": COMMON_ASSUMPTIONS + ["the size law is asserted for handles created by construction, copy and apply only (Project may leave unreferenced nodes by design)"],
     },
+    "C13": {
+        "harness": "c13",
+        "custom": "c13",
+        "quick": {"workers": 8, "cases": 2000, "size": 24, "fuzz_jobs": 4, "fuzz_seconds": 60},
+        "thorough": {"workers": 16, "cases": 20000, "size": 36, "fuzz_jobs": 16, "fuzz_seconds": 600},
+        "min_nontrivial_frac": 0.2,
+        "rule": "(a) generated AutDescriptions (state/symbol names of 1-6 printable ASCII characters without whitespace, ( ) , : and the substring '->'; nullary rules; empty final/symbol/state sections; empty automaton name): "
+                "ParseString(Serialize(d)) == d under the library's relaxed equality, twice, and the same description written by the harness in another textual form (nullary rules with parentheses, missing or re-ordered "
+                "sections, extra blank lines/spaces) parses to the same description; (b) for each of the four encodings: load with a state dictionary, dump, load the dump into a fresh automaton/dictionary, dump again - both dumps "
+                "(read by the harness' own reader) carry the same rules, final states and names, and the first dump carries what was loaded (FA: a start state with several start symbols keeps one); (c) libFuzzer (ASan+UBSan) "
+                "feeds arbitrary bytes to TimbukParser::ParseString and to LoadFromString of all four classes with fresh private alphabets per iteration: only std::exception may escape; successful parses go through (a). "
+                "Non-trivial (a,b): >= 1 nullary and >= 1 non-nullary rule and a state name with punctuation; (c): inputs that parse successfully and reach the transition section are counted separately. Distinct: hash of the case text / of the fuzz input.",
+        "assumptions": COMMON_ASSUMPTIONS + ["leaks are not part of the property (detect_leaks=0)", "libFuzzer campaigns are pinned only approximately by -seed/-runs; the saved crash input is the reproducible unit"],
+    },
 }
+
+LEVEL_TEXT = {
+    "C01": "Generated-input search with an exact, independently written inclusion oracle: thousands of small automaton pairs per run, each through all 8 selections (+ unprepared operands). Finds wrong verdicts, exceptions, hangs and memory errors on small witnesses; establishes nothing beyond the explored pairs.",
+    "C02": "Generated pairs with overlapping/disjoint numbering; result language, semantic meaning of the translation maps, operand immutability and the CLI naming flow judged against reference union/product. Exploration of small automata only.",
+    "C03": "Generated automata with injected dead-state shapes; language preservation and absence of dead states/rules judged on the result with reference fixpoints. Exploration only.",
+    "C04": "Every entry of the returned relation compared with a naive greatest-fixpoint computation straight from the definition, under generated permutations of the state numbers. Exploration of automata with <= 8 states.",
+    "C05": "Language equality by exact reference inclusion, size bounds, and existence of a state map onto the result (representative map or bounded brute-force search). Exploration only.",
+    "C06": "Complement judged by two exact language checks (empty intersection, universality of the union over the alphabet read back from the automaton) plus enumeration of small trees. Exponential construction: automata with <= 4 states.",
+    "C07": "As C01 for both BDD encodings, with generators shaped for the macro-state handling of the upward algorithm; unimplemented selections must throw. Exploration of small pairs.",
+    "C08": "Model-based stateful testing: operation histories over handles sharing transition tables, every step judged from the operand dumps taken immediately before the call. Exploration of histories up to 24 steps.",
+    "C09": "NFA pairs against an exact subset-construction oracle for the three implemented selections, with a watchdog that turns non-termination on tiny inputs into a violation. Exploration only.",
+    "C10": "FA operations judged by exact language comparison of the dumped result with reference union/product/mirror; witness judged by sub-language + non-emptiness. Exploration only.",
+    "C11": "Model-based stateful testing over pools of tree and word automata: after every step every live handle is read back and compared with its model value; recorded calls are repeated on fresh operands. Exploration of histories up to 32 steps.",
+    "C12": "Model-based stateful testing of one automaton against a set-of-rules model: all read-only views are compared after every mutating call. Exploration of histories up to ~70 steps.",
+    "C13": "Round-trip oracles over generated descriptions and all four encodings, plus coverage-guided byte-level fuzzing of parser and loaders under ASan/UBSan with the round-trip oracle inside the target. Exploration; absence of crashing inputs is not established.",
+    "C14": "Set equality of the result with the image automaton computed by the model, for every renaming entry point and map kind. Exploration only.",
+    "C15": "Witness automaton judged by exact reference inclusion and emptiness, with generators for deep shortest trees and unproductive final states. Exploration only.",
+    "C16": "Every entry of the computed relation compared with a naive greatest simulation inside the given block preorder. Exploration of LTSs with <= 14 states.",
+    "C17": "Model-based stateful testing with a truth-table model: all 64 assignments of every live MTBDD and pairwise canonicity after every step. Exploration of 6-variable functions.",
+    "C18": "Model-based stateful testing of handle lifetime under ASan, plus the node-store size law checked through a guarded hook after destroying every handle. Exploration of histories up to ~70 steps.",
+    "C19": "Metamorphic relations (renaming, insertion order, symbol registration order, language laws, agreement of all selections) on generated automata and on the repository's real-world corpus, where no reference oracle is affordable. Exploration only.",
+    "C20": "Sanitizer-oracle exploration: every other harness re-run in sanitizer-only mode, a mixed-encoding workload generator, a structure-aware libFuzzer target and valgrind memcheck for uninitialised reads. Sees only the executions generated.",
+}
+
+TECHNIQUE = {
+    "C01": "property-based testing (rapidcheck): differential against an exact reference inclusion oracle over generated automaton pairs and all parameter selections",
+    "C02": "property-based testing (rapidcheck): reference union/product oracle, semantic check of translation maps, operand read-back",
+    "C03": "property-based testing (rapidcheck): language-preservation and no-dead-state post-conditions against reference fixpoints",
+    "C04": "property-based testing (rapidcheck): differential against naive greatest-fixpoint simulations under generated renumberings",
+    "C05": "property-based testing (rapidcheck): reference language equality + size bounds + image-map validity predicate",
+    "C06": "property-based testing (rapidcheck): reference emptiness/universality oracles + bounded tree enumeration",
+    "C07": "property-based testing (rapidcheck): differential against the exact reference verdict for both BDD encodings; must-throw sweep over parameter words",
+    "C08": "model-based stateful property testing (rapidcheck): operation histories with per-step language oracles from observed operand dumps",
+    "C09": "property-based testing (rapidcheck): differential against an exact NFA inclusion oracle, watchdog for non-termination",
+    "C10": "property-based testing (rapidcheck): reference union/product/mirror oracles on dumped results",
+    "C11": "model-based stateful property testing (rapidcheck): value model per handle checked after every step; repeat-on-fresh-operands metamorphic check",
+    "C12": "model-based stateful property testing (rapidcheck): set-of-rules model vs. every read-only view after every step",
+    "C13": "property-based testing (rapidcheck round trips) + coverage-guided fuzzing (libFuzzer, ASan/UBSan) with the round-trip oracle in the target",
+    "C14": "property-based testing (rapidcheck): exact image-automaton oracle for every renaming entry point",
+    "C15": "property-based testing (rapidcheck): sub-language and non-emptiness oracle for the witness automaton",
+    "C16": "property-based testing (rapidcheck): differential against a naive greatest simulation inside the initial preorder",
+    "C17": "model-based stateful property testing (rapidcheck): truth-table model, pointwise values and pairwise canonicity after every step",
+    "C18": "model-based stateful property testing (rapidcheck) under ASan + node-store size invariant via a guarded hook",
+    "C19": "metamorphic property-based testing (rapidcheck): renaming / reordering invariance and language laws on generated and repository automata",
+    "C20": "sanitizer-oracle fuzzing: rapidcheck workloads, structure-aware libFuzzer target, valgrind memcheck replay",
+}
+
+NOT_APPLICABLE = [p for p in (
+    {"property_id": "C19", "reason": "check under construction in this revision (metamorphic harness not committed yet); will be claimed once built"},
+    {"property_id": "C20", "reason": "check under construction in this revision (sanitizer-only re-use mode, workload fuzzer and memcheck tier not committed yet); will be claimed once built"},
+) if p["property_id"] not in PROPS]
